@@ -119,7 +119,7 @@ impl Scenario for C13 {
                 0 => Op::new("add_t", &[t, *rng.pick(&[500.0, 300.0, 5.0, 1e6, 500.0, f64::NAN, f64::INFINITY, 0.0, -1.0]), rng.below(2) as f64, *rng.pick(&[4.0, 4.0, 3.0, 7.0])]),
                 1 => Op::new("add_d", &[t, *rng.pick(&[1.0, 2.0, 0.5, 1.0, 0.0, 0.25, 0.25000000000000017, f64::NAN, f64::INFINITY, 2.0, 1.0]), if rng.chance(1, 4) { 0.0 } else { 1.0 }]),
                 2 => Op::new("add_e", &[t, rng.below(2) as f64, *rng.pick(&[1.0, 1.0, 2.0, 0.0, 0.25, 0.25000000000000017, f64::NAN, f64::INFINITY, 2.0, 1.0])]),
-                _ => Op::new("add_s", &[t, rng.below(4) as f64, *rng.pick(&[100.0, 50.0, 100.0, 120.0, -5.0]), rng.below(2) as f64]),
+                _ => Op::new("add_s", &[t, rng.below(4) as f64, *rng.pick(&[100.0, 50.0, 100.0, 120.0, -5.0]), *rng.pick(&[0.0, 1.0, 0.0, 1.0, -1.0, 2.0, -2.0])]),
             }
         };
         // one plan in ten is a long history (lists grow beyond any small internal threshold; equal-time adds land on
@@ -156,6 +156,7 @@ impl Scenario for C13 {
         let mut cp = ControlPoints::default();
         let mut m = MC::default();
         let mut prev: Option<usize> = None;
+        let mut last_probe = 0.0f64;
         for (i, op) in plan.ops.iter().enumerate() {
             if let Some(k) = PAIRS.idx(&op.k) {
                 if let Some(p) = prev {
@@ -251,7 +252,20 @@ impl Scenario for C13 {
                 st.inc("probe.add-inserted");
             }
             check_lists(&finite(&cp), &m, i, op)?;
-            check_lookups(&finite(&cp), &m, i, st)?;
+            // first the probe time that was looked up LAST before this add, once more and before anything else (a lookup
+            // memo keyed by the probe time would still hold the pre-add answer), then the full sweep — on the real
+            // collection when it holds no NaN-time point
+            let has_nan = cp.timing_points.iter().any(|p| p.time.is_nan()) || cp.difficulty_points.iter().any(|p| p.time.is_nan()) || cp.effect_points.iter().any(|p| p.time.is_nan()) || cp.sample_points.iter().any(|p| p.time.is_nan());
+            if has_nan {
+                check_lookups(&finite(&cp), &m, i, st)?;
+            } else {
+                let repeat = [last_probe, t];
+                check_lookup_at(&cp, &m, i, &repeat)?;
+                check_lookups(&cp, &m, i, st)?;
+                last_probe = if i % 2 == 0 { t } else { f64::MAX };
+                // leave the collection with that probe as the most recent lookup of every kind
+                let _ = (cp.sample_point_at(last_probe), cp.timing_point_at(last_probe), cp.difficulty_point_at(last_probe), cp.effect_point_at(last_probe));
+            }
         }
         let mut h = Fnv::new();
         use std::fmt::Write as _;
@@ -297,6 +311,42 @@ fn check_lists(cp: &ControlPoints, m: &MC, i: usize, op: &Op) -> Result<(), Viol
     if !(ok_t && ok_d && ok_e && ok_s) {
         let which = if !ok_t { "timing" } else if !ok_d { "difficulty" } else if !ok_e { "effect" } else { "sample" };
         return Err(Violation::new("C13/list-mismatch", which, format!("after op #{i} {}{:?} the {which} list differs from the reference collection\n real : {cp:?}\n model: {m:?}", op.k, op.a)));
+    }
+    Ok(())
+}
+
+/// Lookups at the given probe times only (same oracle as `check_lookups`).
+fn check_lookup_at(cp: &ControlPoints, m: &MC, i: usize, probes: &[f64]) -> Result<(), Violation> {
+    let scan = |ts: &[f64], t: f64| -> Option<usize> {
+        let mut r = None;
+        for (k, x) in ts.iter().enumerate() {
+            if *x <= t {
+                r = Some(k);
+            }
+        }
+        r
+    };
+    let tt: Vec<f64> = m.t.iter().map(|p| p.time).collect();
+    let td: Vec<f64> = m.d.iter().map(|p| p.time).collect();
+    let te: Vec<f64> = m.e.iter().map(|p| p.time).collect();
+    let ts: Vec<f64> = m.s.iter().map(|p| p.time).collect();
+    for &t in probes {
+        if t.is_nan() || (t == 0.0 && t.is_sign_negative()) {
+            continue;
+        }
+        let w = |v: &[f64], k: Option<usize>| k.map(|k| v[k].to_bits());
+        let want_t = scan(&tt, t).or(if tt.is_empty() { None } else { Some(0) });
+        let want_s = scan(&ts, t).or(if ts.is_empty() { None } else { Some(0) });
+        for (name, got, want) in [
+            ("timing", cp.timing_point_at(t).map(|p| p.time.to_bits()), w(&tt, want_t)),
+            ("sample", cp.sample_point_at(t).map(|p| p.time.to_bits()), w(&ts, want_s)),
+            ("difficulty", cp.difficulty_point_at(t).map(|p| p.time.to_bits()), w(&td, scan(&td, t))),
+            ("effect", cp.effect_point_at(t).map(|p| p.time.to_bits()), w(&te, scan(&te, t))),
+        ] {
+            if got != want {
+                return Err(Violation::new("C13/lookup-mismatch", name, format!("after op #{i}: {name}_point_at({t}) — the probe time looked up right before the add, asked again right after it — returned the point at {:?}, the linear-scan reference says {:?}\n collection: {cp:?}", got.map(f64::from_bits), want.map(f64::from_bits))));
+            }
+        }
     }
     Ok(())
 }
